@@ -135,6 +135,8 @@ pub fn object_ids(changes: &[Change]) -> Vec<(ObjId, ObjType)> {
         }
     }
     out.sort_by(|a, b| (a.0, &a.1).cmp(&(b.0, &b.1)));
+    // diverged replicas using one actor id can create two objects with one id: list it once
+    out.dedup_by(|a, b| a.0 == b.0 && a.1 == b.1);
     let mut v = vec![(ROOT, ObjType::Map)];
     v.extend(out.into_iter().map(|x| (x.2, x.3)));
     v
